@@ -142,6 +142,20 @@ Theorem no_mixedb_spec : forall s,
 Proof. exact no_mixedb_spec_l. Qed.
 Print Assumptions no_mixedb_spec.
 
+(** ** no boundary: [break_after (u ++ [a]) b = false] puts [a] and [b] side by side in one
+    cluster — hence a mixed cluster when exactly one of them is whitespace *)
+Theorem segment_nobreak : forall u a b v,
+  break_after (u ++ [a]) b = false ->
+  exists cl l1 l2, In cl (segment ((u ++ [a]) ++ b :: v)) /\ cl = l1 ++ a :: b :: l2.
+Proof. exact segment_nobreak_l. Qed.
+Print Assumptions segment_nobreak.
+
+Theorem no_mixedb_nobreak : forall u a b v,
+  break_after (u ++ [a]) b = false -> is_ws a = negb (is_ws b) ->
+  no_mixedb ((u ++ [a]) ++ b :: v) = false.
+Proof. exact no_mixedb_nobreak_l. Qed.
+Print Assumptions no_mixedb_nobreak.
+
 (** ** examples (non-vacuity, and the rules at work) *)
 (** e + U+0301 | SPACE + U+0301 (KF1) | CR LF | two flags and a half | ka + virama + ka |
     woman ZWJ laptop | Prepend + a *)
@@ -172,3 +186,6 @@ Example ws_joinable_witness : ws_joinable 769 = true /\ ws_joinable 8205 = true 
 Proof. vm_compute. repeat split; reflexivity. Qed.
 Example no_mixedb_witness : no_mixedb [97; 13; 10; 32; 101; 769] = true /\ no_mixedb [97; 32; 769] = false.
 Proof. vm_compute. split; reflexivity. Qed.
+Example break_after_witness : break_after [97; 32] 769 = false /\ break_after [127462; 127463] 127464 = true
+  /\ break_after [127462] 127463 = false /\ break_after [2325; 2381] 2325 = false.
+Proof. vm_compute. repeat split; reflexivity. Qed.
